@@ -18,6 +18,25 @@ Theorem C13_start_guard : forall ops s, run ops = Ok s -> forall b,
 Proof. exact start_guard. Qed.
 Print Assumptions C13_start_guard.
 
+(* "each starts at the latest finish date of its predecessors": for every script (remove_successor included) a started
+   activity started exactly at the latest of: the finish dates of its declared predecessors, its latest assignment,
+   its latest explicit start request (absent dates count as 0, the origin of the clock).  In particular an activity
+   that was assigned and requested before its last predecessor finished starts at that predecessor's finish date. *)
+Theorem C13_start_at_max_pred_finish : forall ops s, run ops = Ok s -> forall b ts, a_tstart (acts s b) = Some ts ->
+  ts = Z.max (Z.max (max_list (map (fun p => odef (a_tfinish (acts s p))) (a_gpreds (acts s b))))
+                    (odef (a_tassign (acts s b)))) (odef (a_treq (acts s b))).
+Proof. exact start_at_max. Qed.
+Print Assumptions C13_start_at_max_pred_finish.
+
+(* "In an acyclic workflow where every activity is assigned and nothing fails, every activity finishes": from any state
+   reached by a script in which every activity is assigned, every not-yet-started activity still waits for a dependency,
+   dependencies are unfinished activities that list it as successor, and the dependency relation decreases some rank
+   (acyclic), Engine::run() leaves every activity FINISHED.  (Failures do not exist in this model.) *)
+Theorem C13_acyclic_all_finish : forall ops s rank, run ops = Ok s -> settled s rank ->
+  forall s', step s Run = Ok s' -> forall b, (b < nacts s')%nat -> a_state (acts s' b) = FINISHED.
+Proof. exact acyclic_all_finish. Qed.
+Print Assumptions C13_acyclic_all_finish.
+
 (* The oracle: a log (script operations and on_start / on_completion signals, oldest first) accepted by the monitor
    satisfies, at every start signal of b at date d: b was assigned before; every predecessor a declared before and not
    removed since has a completion signal before, dated <= d; and, on logs without remove_successor, d is the max of
@@ -55,3 +74,18 @@ Example C13_nonvacuous :
     a_tstart (acts s 2) = Some 2560 /\ a_tfinish (acts s 2) = Some 3584 /\
     trace_ok (rev (trace s)) = true.
 Proof. eexists. split; [vm_compute; reflexivity|]. vm_compute. repeat split; reflexivity. Qed.
+
+(* the hypotheses of C13_acyclic_all_finish hold on a real workflow: two running parents, one waiting child *)
+Definition ex_ops2 : list op :=
+  [Create KExec 1024; Create KComm 2048; Create KIo 1024; AddSucc 0 2; AddSucc 1 2; Assign 2; Assign 0; Assign 1; Start 0].
+Example C13_liveness_nonvacuous : exists s, run ex_ops2 = Ok s /\ settled s (fun i => i) /\ nacts s = 3%nat /\
+  a_state (acts s 2) = INITED /\ a_state (acts s 1) = STARTED.
+Proof.
+  eexists. split; [vm_compute; reflexivity|]. split; [|vm_compute; auto].
+  constructor.
+  - intros b Hb. cbn in Hb. destruct b as [|[|[|b]]]; try lia; vm_compute; reflexivity.
+  - intros b Hb. cbn in Hb. destruct b as [|[|[|b]]]; try lia; vm_compute; intros; discriminate.
+  - intros b p Hp. destruct b as [|[|[|b]]]; vm_compute in Hp; try contradiction.
+    destruct Hp as [<-|[<-|[]]]; vm_compute; repeat split; try discriminate; try lia; auto.
+  - intros b. destruct b as [|[|[|b]]]; vm_compute; auto.
+Qed.
